@@ -111,6 +111,22 @@ inline void relabel(vh::Rng& r, WGraph& g, int mode) {
 }
 inline bool contiguous_labels(const WGraph& g) { for (int i = 0; i < g.n(); ++i) if (g.label[i] != i) return false; return true; }
 
+// a filtration is any monotone real function: on a third of the graphs every value is shifted by a negative multiple of the grid
+// step, so that some or all the vertices / edges of a clique carry negative values (0 is then not a neutral element of max)
+inline void shift_values(vh::Rng& r, WGraph& g, double scale) {
+  if (!r.chance(1, 3)) return;
+  const double shift = -scale * 0.5 * (double)(1 + r.below(8));
+  for (int i = 0; i < g.n(); ++i) { g.vval[i] += shift; for (int j = 0; j < g.n(); ++j) if (g.has_edge(i, j)) g.w[i][j] += shift; }
+}
+inline void count_values(vh::Case& c, const WGraph& g) {
+  bool some = false, all = g.n() > 0; int tri_neg = 0;
+  for (int i = 0; i < g.n(); ++i) { some = some || g.vval[i] < 0; for (int j = i + 1; j < g.n(); ++j) if (g.has_edge(i, j)) { if (g.w[i][j] < 0) some = true; else all = false; } }
+  for (int i = 0; i < g.n(); ++i) for (int j = i + 1; j < g.n(); ++j) for (int k = j + 1; k < g.n(); ++k)
+    if (g.has_edge(i, j) && g.has_edge(i, k) && g.has_edge(j, k) && g.w[i][j] < 0 && g.w[i][k] < 0 && g.w[j][k] < 0) ++tri_neg;
+  if (some) c.count("graph.some_negative_values");
+  if (all && some) c.count("graph.all_values_negative");
+  if (tri_neg) c.count("graph.triangle_with_negative_edges_only");
+}
 // random weighted graph: vertex values <= incident edge values, 5-value grid (ties); now and then the graph without vertices
 inline WGraph random_graph(vh::Rng& r, int nmax, int label_mode, double scale) {
   int n = r.chance(1, 25) ? 0 : 1 + (int)r.below(nmax);
@@ -124,6 +140,7 @@ inline WGraph random_graph(vh::Rng& r, int nmax, int label_mode, double scale) {
     double w = (kind == 3) ? scale * 1.0 : std::max({g.vval[i], g.vval[j], scale * 0.5 * (double)r.below(6)});
     g.w[i][j] = g.w[j][i] = w;
   }
+  shift_values(r, g, scale);
   return g;
 }
 // G(n, p) with the same value rules
@@ -135,6 +152,7 @@ inline WGraph random_graph_np(vh::Rng& r, int n, unsigned per_mille, double scal
     if (r.below(1000) >= per_mille) continue;
     g.w[i][j] = g.w[j][i] = equal ? scale * 1.0 : std::max({g.vval[i], g.vval[j], scale * 0.5 * (double)r.below(6)});
   }
+  shift_values(r, g, scale);
   return g;
 }
 inline std::string show_graph(const WGraph& g) {
@@ -290,6 +308,7 @@ void run_expansion(vh::Case& c, const std::string& optname) {
   const double sc = value_scale<ST>();
   unsigned lm = Options::contiguous_vertices ? 0 : (unsigned)r.below(8);  // contiguous_vertices: labels 0..n-1 are a documented precondition
   WGraph g = random_graph(r, 9, lm < 5 ? 0 : lm < 7 ? 1 : 2, sc);
+  count_values(c, g);
   int max_dim = r.chance(1, 20) ? 0 : r.chance(1, 12) ? extreme_dim(r) : 1 + (int)r.below(6);
   SkelPlan plan = make_plan(r, g, Options::contiguous_vertices);
   count_plan(c, plan, g);
@@ -370,6 +389,7 @@ void run_incremental(vh::Case& c, const std::string& optname) {
   const double sc = value_scale<ST>();
   unsigned lm = (unsigned)r.below(6);
   WGraph g = random_graph(r, 8, lm < 3 ? 0 : lm < 5 ? 1 : 2, sc);
+  count_values(c, g);
   const int n = g.n();
   int max_dim = r.chance(1, 4) ? -1 : (r.chance(1, 15) ? 0 : r.chance(1, 12) ? extreme_dim(r) : 1 + (int)r.below(5));
   const int mdim = incremental_model_dim(max_dim);
@@ -673,6 +693,7 @@ void run_mid(vh::Case& c, const std::string& optname) {
   int n = 10 + (int)r.below(31);
   unsigned pm = n <= 16 ? 400 + 100 * (unsigned)r.below(5) : n <= 28 ? 200 + 60 * (unsigned)r.below(5) : 100 + 40 * (unsigned)r.below(5);
   WGraph g = random_graph_np(r, n, pm, sc);
+  count_values(c, g);
   int max_dim = r.chance(1, 10) ? (r.chance(1, 2) ? INT_MAX : 100) : 2 + (int)r.below(4);
   SkelPlan plan = make_plan(r, g, Options::contiguous_vertices);
   c.log("[" + optname + "] mid graph " + show_graph(g) + " max_dim=" + vh::str(max_dim) + " skeleton=" + plan.name());
